@@ -11,6 +11,9 @@ from . import gen
 # numba communicator kernels are closures over (dx, num_lag_nodes): each new pair costs seconds of compilation.
 DX_PALETTE = [0.0625, 0.1, 0.0137]
 N_PALETTE = {2: [1, 2, 7, 33], 3: [1, 3, 7, 33]}
+# "any number of markers": a large count is part of the domain too (the communicators carry size-dependent code paths in
+# comments/fallbacks); only at dx = DX_PALETTE[0] to bound the numba compile cost
+N_LARGE = 640
 
 _COMM = {}
 
@@ -189,3 +192,19 @@ def ref_spread(lag, pos, shape, dx, kernel_type):
     if lag.ndim == 1:
         return np.tensordot(lag, w, axes=(0, 0))
     return np.stack([np.tensordot(lag[c], w, axes=(0, 0)) for c in range(lag.shape[0])])
+
+
+def build_markers_any(case, shape, dx):
+    """Palette-sized sets are fully drawn (build_markers); large sets take the drawn markers first and fill the rest with
+    positions that are a pure function of the drawn ``marker_key`` (uniform in the admissible interior)."""
+    pos, labels = build_markers(case["markers"], shape, dx)
+    n = int(case["n"])
+    if pos.shape[1] >= n:
+        return pos[:, :n], labels[:n]
+    dim = len(shape)
+    rng = np.random.Generator(np.random.Philox(key=int(case["marker_key"])))
+    extra = np.zeros((dim, n - pos.shape[1]))
+    for c in range(dim):
+        nc = shape[dim - 1 - c]
+        extra[c] = rng.uniform(2.0 * float(dx), (nc - 2.0) * float(dx), size=extra.shape[1])
+    return np.concatenate([pos, extra], axis=1), labels + ["uniform"] * extra.shape[1]
